@@ -98,7 +98,8 @@ Expired == {k \in Keys : KeyLess(k, SplitKey)}
 WakeEffect ==
   /\ wheel' = [k \in Keys \ Expired |-> wheel[k]]
   /\ fk' = [i \in Objs |-> fk[i] \/ (obj[i].sl = "some" /\ obj[i].key \in Expired)]
-  /\ wk' = [i \in Objs |-> wk[i] \/ (\E k \in Expired : wheel[k] # NoWaker /\ wheel[k][1] = i)]
+  \* (the waker of a Timeout that already yielded Ok may still be invoked: nothing is polled again then)
+  /\ wk' = [i \in Objs |-> wk[i] \/ (obj[i].st = "live" /\ \E k \in Expired : wheel[k] # NoWaker /\ wheel[k][1] = i)]
   /\ justWoke' = TRUE
 
 \* ---------------------------------------------------------------------------
